@@ -26,6 +26,7 @@
 //
 pub use self::base::{Collector, Cleanup, Run, Repository};
 pub use self::rrdp::{HttpStatus, RrdpArchive, SnapshotReason};
+#[cfg(feature = "verif-hooks")] pub use self::rrdp::RepositoryState;
 
 mod base;
 mod rrdp;
